@@ -5,7 +5,7 @@
 # Scratch lives under /tmp/rv_selftest and is removed afterwards unless KEEP=1.
 set -u
 patch="$(readlink -f "$1")"; shift
-S=/tmp/rv_selftest
+S="${RV_SELFTEST_DIR:-/tmp/rv_selftest}"
 TIER="${TIER:-quick}"; SEED="${SEED:-1}"
 if [ ! -d $S/repo ]; then
   mkdir -p $S
